@@ -145,6 +145,10 @@ class CountFeatureCompressionTransformer(BaseEstimator, TransformerMixin):
             self,
             ["components_", "component_scaling_"],
         )
+        if self.n_components >= X.shape[1]:
+            # No compression was learned; fit_transform returned the data unchanged.
+            return X
+
         normed_data = normalize(X)
         rescaled_data = scipy.sparse.csr_matrix(normed_data)
         rescaled_data.data = np.power(normed_data.data, self.rescaling_power)
